@@ -21,7 +21,7 @@ for pid in ids:
         'evidence_file': f'/verif/evidence/{pid}.json',
         'replay_cmd_template': f'./check {pid} --replay {{path}}',
         'engine': c.get('engine', 'symx'),
-        'level_claimed': {'category': 'model_checking', 'text': c['text'], 'design_ref': c.get('design_ref', f'DESIGN.md §1 {pid}')},
+        'level_claimed': {'category': c.get('category', 'model_checking'), 'text': c['text'], 'design_ref': c.get('design_ref', f'DESIGN.md §1 {pid}')},
         'level_note': c['note'],
         'technique': c['technique'],
     })
